@@ -160,6 +160,8 @@ fn pools() -> Vec<Vec<usize>> {
         // products of two larger primes (no factor <= 7, not a butterfly pair) and their Rader/Bluestein parts
         vec![11, 37, 41, 407, 451, 1517, 74, 111, 82, 59, 649],
         vec![83, 166, 107, 214, 167, 1031, 59, 118, 149],
+        // powers of two with their 3*2^k neighbours (Radix4 over a 12 / 24 base) and Bluestein primes whose inner length is 3*2^k
+        vec![512, 1536, 1024, 3072, 2048, 6144, 384, 719, 1439],
     ]
 }
 
